@@ -62,8 +62,27 @@ func (c *labelCtx) shapeOf(lin *kit.LinEval, b ssa.Value, at ssa.Instruction) br
 		}
 	}
 	if a, ok := b.(*ssa.Alloc); ok && a.Heap {
-		// composite literal in this function
-		return branchShape{ph: lin.FieldAt(a, c.phF, at), off: lin.FieldAt(a, c.offF, at), n: lin.LenFieldAt(a, c.headersF, at), fresh: true}
+		// composite literal in this function; a literal that does not list headers (and whose
+		// headers field this function never stores) starts empty, like the constructors' results
+		n := lin.LenFieldAt(a, c.headersF, at)
+		storesHeaders := false
+		if a.Referrers() != nil {
+			for _, ref := range *a.Referrers() {
+				if fa, ok := ref.(*ssa.FieldAddr); ok {
+					if fl, _ := kit.FieldOfAddr(fa); fl == c.headersF && fa.Referrers() != nil {
+						for _, r2 := range *fa.Referrers() {
+							if st, ok := r2.(*ssa.Store); ok && st.Addr == ssa.Value(fa) {
+								storesHeaders = true
+							}
+						}
+					}
+				}
+			}
+		}
+		if !storesHeaders {
+			n = kit.LinConst(0)
+		}
+		return branchShape{ph: lin.FieldAt(a, c.phF, at), off: lin.FieldAt(a, c.offF, at), n: n, fresh: true}
 	}
 	return branchShape{ph: lin.FieldAt(b, c.phF, at), off: lin.FieldAt(b, c.offF, at), n: lin.LenFieldAt(b, c.headersF, at)}
 }
